@@ -374,6 +374,13 @@ func (s *Server) newSocket(
 		socket.close(ReasonTransportError, err)
 		return nil
 	}
+
+	// The server might have been closed while this handshake was in progress,
+	// in which case `Close` can have missed this socket.
+	if s.IsClosed() {
+		socket.Close()
+		return nil
+	}
 	return socket
 }
 
